@@ -41,9 +41,8 @@ func (c *zzSchemaConn) Query(ctx context.Context, sql string, args ...any) (pgx.
 
 var zzPending []wpg.Column
 
-// zzCollectColumns replaces pgx.CollectRows(rows, pgx.RowToStructByName[Column]) in wpg.Diff.
-func zzCollectColumns(rows pgx.Rows, fn any) ([]wpg.Column, error) {
-	return zzPending, nil
+func init() {
+	wpg.ZZCollect = func() []wpg.Column { return zzPending }
 }
 
 // shapes: 0 transaction fields, 1 log with an indexed selected input,
